@@ -28,9 +28,8 @@ def join_is_least_upper_bound():
     sym.check("join_copyable_otherwise", sym.iff(r == COPY, sym.not_(want_any)))
 
 
-def _leaf(tag, depth):
-    """A type with a symbolic or fixed bound -> (type, z3-ish 'is Any' condition)."""
-    kinds = P([0, 2, 4, 5, 7], [0, 1, 2, 3, 4, 5, 6, 7, 9]) + ([8] if depth > 0 else [])
+def _leaf(tag, kinds):
+    """A type with a symbolic or fixed bound -> (type, 'is Any' condition)."""
     kind = kinds[sym.concretize(sym.int(f"{tag}.kind", 0, len(kinds) - 1))]
     if kind == 0:
         b = sym.enum(f"{tag}.b", TypeBound)
@@ -53,14 +52,13 @@ def _leaf(tag, depth):
     if kind == 7:
         # function types are copyable whatever they mention
         return tys.FunctionType([tys.Qubit], [tys.Qubit]), False
-    if kind == 8:
-        t, a = _sum(tag + ".s", depth - 1)
-        return t, a
     # polymorphic function type: copyable
     return tys.PolyFuncType([tys.TypeTypeParam(ANY)], tys.FunctionType([tys.Variable(0, ANY)], [])), False
 
 
-def _sum(tag, depth, form=None):
+def _sum(tag, form, kinds, maxlen, nested_first=False):
+    """A sum in one of the five spellings -> (type, 'some constituent is Any').
+    nested_first: the first element of the first non-empty row is itself a sum (any spelling)."""
     if form is None:
         form = sym.concretize(sym.int(f"{tag}.form", 0, 4))
     nrows = sym.concretize(sym.int(f"{tag}.rows", 0, 2)) if form == 0 else (1 if form == 1 else 2)
@@ -68,14 +66,19 @@ def _sum(tag, depth, form=None):
         n = sym.concretize(sym.int(f"{tag}.n", 0, 3))
         return tys.UnitSum(n), False
     rows, anys = [], []
+    placed = not nested_first
     for r in range(nrows):
         if form == 2 and r == 0:
             rows.append([])
             continue
-        ln = sym.concretize(sym.int(f"{tag}.len{r}", 0, 2))
+        ln = sym.concretize(sym.int(f"{tag}.len{r}", 0, maxlen))
         row = []
         for j in range(ln):
-            t, a = _leaf(f"{tag}.{r}.{j}", depth)
+            if not placed:
+                placed = True
+                t, a = _sum(f"{tag}.in", None, [0, 4, 5], 1)
+            else:
+                t, a = _leaf(f"{tag}.{r}.{j}", kinds)
             row.append(t)
             anys.append(a)
         rows.append(row)
@@ -90,12 +93,17 @@ def _sum(tag, depth, form=None):
     return t, (sym.or_(*anys) if anys else False)
 
 
-@lemma("C07", params=[0, 1, 2, 3, 4],
-       bounds="per sum form (0 general, 1 Tuple, 2 Option, 3 Either, 4 UnitSum): <= 2 rows of <= 2 elements; leaves from 5 kinds "
-              "(quick: Variable/Opaque with symbolic bound, Qubit, Bool, FunctionType) / 9 kinds + one level of nested sums (thorough); "
-              "leaf bounds symbolic", outside="wider/deeper type expressions", opts={"max_paths": 400000, "timeout_s": 3000})
-def sum_bound_is_join_of_constituents(form):
-    t, want_any = _sum("t", P(0, 1), form)
+@lemma("C07", params=[(f, m) for f in range(4) for m in (0, 1)] + [(4, 0)],
+       bounds="per sum spelling (0 general, 1 Tuple, 2 Option, 3 Either, 4 UnitSum) and mode. mode 0: <= 2 rows of <= 2 elements, leaves from 5 kinds "
+              "(quick: Variable/Opaque with symbolic bound, Qubit, Bool, FunctionType) / 9 kinds (thorough: + Alias, RowVariable, USize, PolyFuncType). "
+              "mode 1: the first element is itself a sum (any of the five spellings, <= 2 rows of <= 1 element from Variable/Qubit/Bool), remaining "
+              "elements from Variable/Qubit/Bool (quick: rows of <= 1 element; thorough: <= 2); all leaf bounds symbolic",
+       outside="wider/deeper type expressions", opts={"max_paths": 400000, "timeout_s": 3000})
+def sum_bound_is_join_of_constituents(form, mode):
+    if mode == 0:
+        t, want_any = _sum("t", form, P([0, 2, 4, 5, 7], [0, 1, 2, 3, 4, 5, 6, 7, 9]), 2)
+    else:
+        t, want_any = _sum("t", form, [0, 4, 5], P(1, 2), nested_first=True)
     b = t.type_bound()
     sym.check("sum_any_iff_some_constituent_any", sym.iff(_is_any(b), want_any))
     sym.check("sum_bound_is_a_bound", sym.or_(b == ANY, b == COPY))
